@@ -27,9 +27,9 @@ TECHNIQUE = 'Lean 4 proof (induction over balanced operation histories, frame in
 TRUSTED = ['python oracle harness/props/c04.py:ScopeOracle (abstract scoping semantics for balanced histories)']
 ASSUMPTIONS = ['objects pushed in balanced histories are not document-level (a document-level push resets the stack by design)',
                'category codes 0..15']
-RULE = ('exhaustive: every history of length <= L over 33 concrete operations (L=3 quick, 4 thorough); seeded: random histories up to length 60, half of them balanced by construction; '
+RULE = ('exhaustive: every history of length <= L over 34 concrete operations (L=3 quick, 4 thorough); seeded: random histories up to length 60, half of them balanced by construction; '
         'non-trivial = history contains a push, a pop and at least one definition/let/catcode operation; distinct = distinct request line')
-EXHAUSTIVE = {'quick': 'all histories of length <= 3 over the 33-operation alphabet', 'thorough': 'all histories of length <= 4 over the 33-operation alphabet'}
+EXHAUSTIVE = {'quick': 'all histories of length <= 3 over the 34-operation alphabet', 'thorough': 'all histories of length <= 4 over the 34-operation alphabet'}
 CASE_TIMEOUT = 30
 
 logging.disable(logging.CRITICAL)
@@ -43,7 +43,7 @@ POOLW = ' '.join('o:%d:%d:%d:%d:%d:%s' % (i, p, t, me, dl, ','.join(str(ord(c)) 
 NAMES, LETS, CHARS = [1, 2, 3], [1, 2], [64, 92, 37, 97]
 
 OPS = ['pu:0', 'pu:1', 'pu:2', 'pu:6:1=20', 'pu:7:1=21', 'pu:5', 'po:0', 'po:1', 'po:2', 'po:3', 'po:4', 'po:6', 'po:7',
-       'ag:1:10', 'ag:2:11', 'gd:1:30', 'gd:2:31', 'al:1:12', 'al:2:13', 'lc:1:2', 'lc:3:1', 'lt:1:65', 'lt:2:66', 'gl:1:2', 'gl:3:1', 'gt:1:67', 'gt:2:68',
+       'ag:1:10', 'ag:2:11', 'gd:1:30', 'gd:2:31', 'al:1:12', 'al:2:13', 'lc:1:2', 'lc:3:1', 'lt:1:65', 'lt:2:66', 'gl:1:2', 'gl:3:1', 'gl:1:1', 'gt:1:67', 'gt:2:68',
        'sc:64:11', 'sc:92:12', 'sc:97:14', 'sv', 'lk:1', 'lk:3']
 LOCAL_OPS = [o for o in OPS if not o.startswith(('pu', 'po'))]
 
